@@ -17,6 +17,8 @@ theorem whole_map_keeps_newest : Generated.extendKeepsNewest = true := by decide
 /-- the property sinking of `GraphEngine::compact` (in `compact` or in the helper it calls) reads
     `tree.root()` only AFTER the insert loops (regenerated table entry; seed C05-seed1 makes it false) -/
 theorem compact_reads_root_after_inserts : Cfg.current.rootAfterInserts = true := by decide
+/-- the sinking loops replace the store entry of a key (one entry per key: `replace_property_entry`) -/
+theorem compact_sink_replaces : Cfg.current.sinkReplaces = true := by decide
 
 /-- the current source with ANY behaviour of the property B-tree's root: `mv n k` says whether the root
     page changes (root split) while a compaction inserts `k` entries into a tree of `n` entries -/
@@ -50,12 +52,12 @@ def C05_full : Prop :=
 theorem compact_root_is_store_root (mv : Nat → Nat → Bool) (s : Engine) (hroot : RootOK s) :
     let s' := s.compact (cfgWithRootSplits mv)
     RootOK s' ∧ s'.visibleStore = s'.store ∧
-    (s.runs.isEmpty = false → s'.store = sunkOf s ++ s.store ∧
+    (s.runs.isEmpty = false → (∀ key, s'.store.lookup key = (sunkOf s ++ s.store).lookup key) ∧
       ∃ epoch segs upTo, s'.wal = s.wal ++ [.beginTx s.nextTxid, .manifestSwitch epoch segs s'.storeRoot,
         .checkpoint upTo epoch s'.storeRoot, .commitTx s.nextTxid]) := by
   have h' := hroot.compact (cfgWithRootSplits mv) compact_reads_root_after_inserts
-  refine ⟨h', visibleStore_ok h', fun he => ⟨compact_store _ s he, ?_⟩⟩
-  obtain ⟨root, sr, heq⟩ := compact_eq (cfgWithRootSplits mv) s he
+  refine ⟨h', visibleStore_ok h', fun he => ⟨compact_store_lookup _ s he, ?_⟩⟩
+  obtain ⟨st, root, sr, heq⟩ := compact_eq (cfgWithRootSplits mv) s he
   have hr : root = sr := by
     have := h'.eq
     rw [heq] at this
@@ -260,19 +262,20 @@ theorem C05_counterexample_property_removal :
 
 /-! ### the three defects of the pinned tree that are fixed (witnesses stay in the corpus) -/
 
-/-- a value overwritten across two compactions: the single-key read returns the new value; the pinned
-    insertion loop of the whole-map read (`props.insert`, `extendWith false`) returned the OLD one (the scan
-    kept the last = oldest duplicate of the key), the current one (`or_insert`) returns the new one; fixed
-    by c7ee0a6 -/
+/-- a value overwritten across two compactions.  Pinned tree: the store holds BOTH entries of the key and
+    the insertion loop of the whole-map read (`props.insert`, `extendWith false`) returned the OLD one
+    (the scan kept the last = oldest duplicate).  Current tree: the whole-map scan keeps the first entry
+    (c7ee0a6) and the sinking replaces the entry of the key, so the store holds ONE entry. -/
 def hOverwrite : List Op :=
   [ .tx [.node 10 (some A), .nprop 0 K 1] true, .compact, .tx [.nprop 0 K 2] true, .compact ]
 
 theorem C05_counterexample_whole_map_oldest :
-    (∃ s, Storage.run Cfg.current hOverwrite = .ok s ∧ s.nodeProp 0 K = some 2 ∧
-      Store.extendWith false (s.store.fetchNode 0 []) [] = [(K, 1)] ∧ s.nodeProps 0 = [(K, 2)]) ∧
+    (∃ s, Storage.run Cfg.pinned hOverwrite = .ok s ∧ s.store.length = 2 ∧
+      Store.extendWith false (s.store.fetchNode 0 []) [] = [(K, 1)]) ∧
+    (∃ s, Storage.run Cfg.current hOverwrite = .ok s ∧ s.nodeProp 0 K = some 2 ∧ s.store.length = 1 ∧
+      s.nodeProps 0 = [(K, 2)]) ∧
     StorageTriggers.c05TriggerList Cfg.current hOverwrite = [] :=
-  ⟨⟨_, rfl, by decide, by decide, by decide⟩, by decide⟩
-
+  ⟨⟨_, rfl, by decide, by decide⟩, ⟨_, rfl, by decide, by decide, by decide⟩, by decide⟩
 
 /-- pinned tree: an edge-free compaction yields a segment without reverse offsets and
     `incoming_neighbors(0)` panics (csr.rs:67); fixed by f429866 -/
